@@ -776,6 +776,81 @@ func Generate(r *rand.Rand, profile string, concurrent bool, av Avoid) *Plan {
 		ops = append(ops, frag...)
 		p.Ops = append(ops, p.Ops[at:]...)
 	}
+	// Directed fragment (scale): more than two thousand streams on ONE channel
+	// (calls for a key bound there go home whatever the load) while the other
+	// channel is idle; then unkeyed calls: the idle channel is the least loaded
+	// one at 2047, 2048 and 2100 streams as at 3.
+	if (profile == "load" || profile == "affinity") && !concurrent && !p.Cfg.RR && !p.Cfg.NilCfg && r.IntN(400) == 0 && !kern.RaceBuild && p.Cfg.Locator < nGoodLocators && len(p.Ops) > 4 {
+		p.Cfg.NilPool = false
+		p.Cfg.Min, p.Cfg.Max, p.Cfg.WM = 2, 2, []uint32{0, 100, 3000}[r.IntN(3)]
+		p.Cfg.UCalls, p.Cfg.UMs = 0, 0
+		k := r.IntN(nKeys)
+		frag := []Op{{K: OpConn, A: 0, B: ConnProgress}, {K: OpConn, A: 0, B: ConnProgress}, {K: OpConn, A: 1, B: ConnProgress}, {K: OpConn, A: 1, B: ConnProgress},
+			{K: OpPick, B: MBind, Keys: []int{0}}, {K: OpDone, A: -1, B: OutOK, Keys: []int{k}}}
+		n := 2040 + r.IntN(70)
+		for c := 0; c < n; c++ {
+			frag = append(frag, Op{K: OpPick, B: MBound, Keys: []int{k}})
+			if c >= 2044 && c <= 2050 {
+				frag = append(frag, Op{K: OpPick, B: MPlain})
+			}
+		}
+		frag = append(frag, Op{K: OpPick, B: MPlain}, Op{K: OpPick, B: MPlain}, Op{K: OpDone, A: -1, B: OutOK}, Op{K: OpPick, B: MPlain})
+		p.MassKeys = true
+		at := 1
+		ops := append([]Op{}, p.Ops[:at]...)
+		ops = append(ops, frag...)
+		p.Ops = append(ops, p.Ops[at:]...)
+	}
+	// Directed fragment (scale x refresh x live SHUTDOWN): more than 8192 keys are
+	// unbound, one call each, while the channel of another bound key is out of the
+	// pool (being refreshed, its old connection shut down under the pool); then the
+	// replacement takes over: the key was never unbound, its calls go there.
+	if (profile == "affinity" || profile == "refresh") && !concurrent && !p.Cfg.RR && (r.IntN(1200) == 0 || os.Getenv("SIM_FORCE_MASS") == "4") && !kern.RaceBuild && !extremeWin && (p.Cfg.Locator == 2 || p.Cfg.Locator == 3) && len(p.Ops) > 4 {
+		p.Cfg.Min, p.Cfg.Max = 2, 2
+		p.LiveShutdown = true
+		if p.Cfg.UMs == 0 || p.Cfg.UCalls == 0 || p.Cfg.UMs > 1000 {
+			p.Cfg.UMs, p.Cfg.UCalls = uint32(10*(1+r.IntN(5))), uint32(1+r.IntN(2))
+		}
+		if p.Cfg.WM != 0 && p.Cfg.WM < 8 {
+			p.Cfg.WM = 8
+		}
+		n := int(p.Cfg.UCalls)
+		victim := r.IntN(nKeys)
+		frag := []Op{{K: OpConn, A: 0, B: ConnProgress}, {K: OpConn, A: 0, B: ConnProgress}, {K: OpConn, A: 1, B: ConnProgress}, {K: OpConn, A: 1, B: ConnProgress},
+			{K: OpPick, B: MBind, Keys: []int{0}}, {K: OpDone, A: -1, B: OutOK, Keys: []int{victim}},
+			{K: OpPick, B: MBound, Keys: []int{victim}}} // stays in flight: marks the victim's channel (A: -3 below)
+		for c := 0; c < n; c++ {
+			frag = append(frag, Op{K: OpPick, B: MBound, Keys: []int{victim}, D: 1, E: 1}) // held on the victim's channel: the binds below go to the other one
+		}
+		total := 8200 + r.IntN(300)
+		base := 3000
+		var all []int
+		for len(all) < total {
+			m := 500 + r.IntN(300)
+			ks := make([]int, m)
+			for j := range ks {
+				ks[j] = base + j
+			}
+			base += m
+			all = append(all, ks...)
+			frag = append(frag, Op{K: OpPick, B: MBind, Keys: []int{0}}, Op{K: OpDone, A: -1, B: OutOK, Keys: ks})
+		}
+		frag = append(frag, Op{K: OpAdvance, E: int(p.Cfg.UMs) + 2})
+		for c := 0; c < n; c++ {
+			frag = append(frag, Op{K: OpDone, A: -1, B: OutClientDE}) // refresh of the victim's channel starts
+		}
+		frag = append(frag, Op{K: OpConn, A: -3, B: ConnShutdown}) // its old connection is shut down under the pool
+		for _, k := range all {
+			frag = append(frag, Op{K: OpPick, B: MUnbind, Keys: []int{k}}, Op{K: OpDone, A: -1, B: OutOK})
+		}
+		frag = append(frag, Op{K: OpConn, A: -1, B: ConnProgress}, Op{K: OpConn, A: -1, B: ConnProgress}, // the replacement takes over
+			Op{K: OpPick, B: MBound, Keys: []int{victim}}, Op{K: OpPick, B: MBound, Keys: []int{victim}})
+		p.MassKeys = true
+		at := 1
+		ops := append([]Op{}, p.Ops[:at]...)
+		ops = append(ops, frag...)
+		p.Ops = append(ops, p.Ops[at:]...)
+	}
 	// Directed fragment (scale): hundreds of calls in flight. Defaults (no pool
 	// section: at most 4 channels, watermark 100) or a small pool with the
 	// defaulted watermark: every call is held, each channel that growth adds is
@@ -1531,6 +1606,12 @@ func Simplify(p *Plan) []*Plan {
 	add(func(c *Plan) bool { ch := c.DynMsg; c.DynMsg = false; return ch })
 	add(func(c *Plan) bool { ch := c.UniField; c.UniField = false; return ch })
 	for i := range p.Ops {
+		if len(p.Ops) > 1500 {
+			// plans of thousands of operations (scale fragments): every candidate is a
+			// copy of the whole plan - operations are only removed (by the shrinker's
+			// chunk removal) until the plan is small enough for these
+			break
+		}
 		i := i
 		o := p.Ops[i]
 		if o.N != 0 {
